@@ -115,6 +115,8 @@ def worker_main(argv: list[str]) -> int:
         merge_outcome(agg, o)
         done += 1
     agg["runs"] = done
+    if agg.get("state_hashes"):
+        agg["state_hashes"] = sorted(agg["state_hashes"])
     with open(out, "w") as f:
         json.dump(agg, f, default=str)
     return 0
@@ -127,6 +129,10 @@ def new_agg() -> dict[str, Any]:
 
 def merge_outcome(agg: dict[str, Any], o: dict[str, Any]) -> None:
     agg["execs"] += int(o.get("execs", 1))
+    if o.get("state_hashes"):
+        cur = set(agg.get("state_hashes") or [])
+        cur |= set(o["state_hashes"])
+        agg["state_hashes"] = cur
     agg["sim_us"] += int(o.get("sim_us", 0))
     agg["inconclusive"] += int(o.get("inconclusive", 0))
     for v in o.get("violations", []):
@@ -144,6 +150,12 @@ def merge_outcome(agg: dict[str, Any], o: dict[str, Any]) -> None:
 
 def merge_agg(a: dict[str, Any], b: dict[str, Any]) -> None:
     a["runs"] += b.get("runs", 0)
+    if b.get("state_hashes"):
+        cur = a.get("state_hashes")
+        if not isinstance(cur, set):
+            cur = set(cur or [])
+        cur |= set(b["state_hashes"])
+        a["state_hashes"] = cur
     a["execs"] += b.get("execs", 0)
     a["sim_us"] += b.get("sim_us", 0)
     a["inconclusive"] += b.get("inconclusive", 0)
@@ -488,6 +500,8 @@ def finish(check: str, tier: str, base: int, agg: dict[str, Any], trouble: list[
             "evaluations": agg["execs"],
             "distinct_nontrivial": distinct_nt,
             "distinct_histories": len(agg["digests"]),
+            "distinct_durable_states": len(agg.get("state_hashes") or []),
+            "state_measure": "hash of (stage/task/workflow statuses + multiset of queued message types) at every commit boundary",
             "rule": info["rule"],
             "samples": agg["samples"][:3] or [{"note": "no sample recorded"}],
             "seeded_runs": agg["runs"],
